@@ -420,7 +420,10 @@ func RunC02(tier string, args []string) int {
 	// certificate is reported revoked whatever the other lookup does with its own answer
 	srep := exploreInProcess(chk, "C02", findScenario("s8-ocsp-lookups-vs-cleanup"), 2)
 	fmt.Printf("  S %-40s execs=%d per-bound=%v outcomes=%v\n", srep.Scenario, srep.Executions, srep.PerBound, srep.Outcomes)
+	srep2 := exploreInProcess(chk, "C02", ocspTwoPoliciesScenario("C02"), 2)
+	fmt.Printf("  S %-40s execs=%d per-bound=%v outcomes=%v\n", srep2.Scenario, srep2.Executions, srep2.PerBound, srep2.Outcomes)
 	cov := fw.Coverage{
+		"schedule_scenario_2": srep2,
 		"schedule_scenario":   srep,
 		"evaluations":         evals,
 		"distinct_nontrivial": nontrivial,
